@@ -214,3 +214,25 @@ def block_bands_partition_the_columns(ctx):
     if ctx.canary:
         n = n + ITE(AND(nintj == 11, j == 10), 1, 0)
     ctx.check("every column lies in exactly one band", n == 1)
+
+
+@harness("C09", bounds="binary record holding n integer fields with n around the writer's flush-chunk size "
+                       "(io.DEFAULT_BUFFER_SIZE, read at run time): n in {B-1, B, B+1, 2B-1, 2B, 2B+1} chosen symbolically",
+         stubs=STUBS, max_paths=50)
+def binary_record_longer_than_the_flush_chunk(ctx):
+    B = io.DEFAULT_BUFFER_SIZE
+    n = ctx.choice("n", [B - 1, B, B + 1, 2 * B - 1, 2 * B, 2 * B + 1])
+    st = SymStream(True)
+    with cccc.BinaryRecordWriter(st) as rec:
+        for k in range(n):
+            rec.rwInt(k)
+    raw = st.buf
+    (lead,) = struct.unpack("i", raw[:4])
+    (trail,) = struct.unpack("i", raw[-4:])
+    payload = len(raw) - 8
+    if ctx.canary and n == 2 * B:
+        payload += 4
+    ctx.check("leading count == payload length", lead == payload)
+    ctx.check("payload holds every field", payload == 4 * n)
+    ctx.check("trailing count == leading count", trail == lead)
+    ctx.check("last field is the last value written", struct.unpack("i", raw[-8:-4])[0] == n - 1)
